@@ -88,7 +88,12 @@ pub fn check(scn: &Scenario, schedule: &Schedule, r: &Record) -> V {
             return out;
         }
     }
-    let permanent = schedule.iter().any(|(_, a)| a.is_permanent());
+    let mut permanent = schedule.iter().any(|(_, a)| a.is_permanent());
+    if scn.tcp.is_some() && r.sever_t.is_none() && r.forget_at.is_none() {
+        // tcp family: the cut offset / call index lies beyond the end of the run, the fault never
+        // happened: the run has to complete like a fault-free one
+        permanent = false;
+    }
     let c = summarize(r, CLIENT);
     let s = summarize(r, SERVER);
 
@@ -108,7 +113,12 @@ pub fn check(scn: &Scenario, schedule: &Schedule, r: &Record) -> V {
     // ---- totals: a reader never gets more than the peer's write API accepted; clean EOF only at the
     //      total the peer had written when it shut down (explicitly or by dropping the write half)
     for (reader, rh, wh) in [(CLIENT, &c, &s), (SERVER, &s, &c)] {
-        if rh.read > wh.written {
+        // TCP: a write call that failed may have put a prefix of its bytes on the wire before the
+        // connection broke (the call pushes several packets); the peer may read them (content is checked
+        // above), but never more than the script's total
+        let script_total = if reader == CLIENT { scn.resp as u64 } else { scn.req as u64 };
+        let limit = if scn.tcp.is_some() && matches!(wh.wend, WEnd::Err { .. }) { script_total } else { wh.written };
+        if rh.read > limit {
             out.push(("data.overrun".into(), format!("{}: {} read {} bytes but the peer's writes accepted only {}", ctx, side_name(reader), rh.read, wh.written)));
         }
         if let REnd::Eof { total, .. } = rh.rend {
@@ -131,7 +141,7 @@ pub fn check(scn: &Scenario, schedule: &Schedule, r: &Record) -> V {
 
     if permanent {
         // ---- peer vanished / path secret forgotten: errors within the idle timeout (+ slack), no hang
-        let t_fault = r.blackhole_since.or(r.forget_at);
+        let t_fault = r.blackhole_since.or(r.forget_at).or(r.sever_t);
         if let Some(t0) = t_fault {
             let deadline = t0 + IDLE_US + PROMPT_SLACK_US;
             for (side, h) in [(CLIENT, &c), (SERVER, &s)] {
@@ -205,8 +215,9 @@ pub fn check(scn: &Scenario, schedule: &Schedule, r: &Record) -> V {
 }
 
 pub fn outcome_class(r: &Record) -> String {
+    let n = if r.calls.is_empty() { r.dgrams.len() } else { r.calls.len() };
     if r.panicked.is_some() {
-        return format!("panic-dg{}", r.dgrams.len());
+        return format!("panic-dg{}", n);
     }
     let c = summarize(r, CLIENT);
     let s = summarize(r, SERVER);
@@ -221,5 +232,5 @@ pub fn outcome_class(r: &Record) -> String {
         REnd::Dropped { .. } => "drop",
         REnd::Pending => "pend",
     };
-    format!("c:{}/{}-s:{}/{}-dg{}-end{}ms", rd(&c.rend), w(&c.wend), rd(&s.rend), w(&s.wend), r.dgrams.len(), r.end_t / 1000)
+    format!("c:{}/{}-s:{}/{}-dg{}-end{}ms", rd(&c.rend), w(&c.wend), rd(&s.rend), w(&s.wend), n, r.end_t / 1000)
 }
